@@ -106,7 +106,14 @@ def run_unary(case):
 
 def run_total(case):
     s, inplace = case["dfa"], case["in_place"]
-    D = B.mk_dfa(s, check=False)
+    if case.get("full"):
+        # built total (with the constructor's validity check), then made partial by deleting transitions from the object
+        D = B.mk_dfa(case["full"])
+        gone = {(p, a) for p, a, q in case["full"]["d"]} - {(p, a) for p, a, q in s["d"]}
+        for key in sorted(gone):
+            del D.delta[key]
+    else:
+        D = B.mk_dfa(s, check=False)
     before = B.canon(s)
     if inplace:
         lib(DA.dfa_make_total_in_place, D)
@@ -121,7 +128,8 @@ def run_total(case):
     if not inplace and B.snap_dfa(D) != before:
         raise Fail("mutates_argument", "dfa_make_total changed its argument")
     missing = len(s["Q"]) * len(s["S"]) - len(s["d"])
-    return {"nt": missing > 0 and bool(s["F"]), "cls": ["in_place" if inplace else "copy", "partial" if missing else "already_total"], "out": {"missing": missing}}
+    return {"nt": missing > 0 and bool(s["F"]), "cls": ["in_place" if inplace else "copy", "partial" if missing else "already_total"] + (["made_partial_after_construction"] if case.get("full") else []),
+            "out": {"missing": missing}}
 
 
 def run_lang(case):
@@ -174,7 +182,7 @@ def binary_cases(draw, tier):
 
 @st.composite
 def unary_cases(draw, tier):
-    return {"dfa": draw(G.routes_dfa_specs()) if draw(st.integers(0, 7)) == 0 else draw(G.dfa_specs(max_states=5, max_sigma=2)),
+    return {"dfa": draw(G.routes_dfa_specs()) if draw(st.integers(0, 7)) == 0 else draw(G.dfa_specs(max_states=5, max_sigma=2, odd=["_", " "])),      # not 'ε': dfa_reverse / dfa_no_prefix use it as the epsilon of the NFA they build (asserted by the NFA class)
             "op": draw(st.sampled_from(["complement", "reverse", "no_prefix", "no_extend", "remove_unreachable"]))}
 
 
@@ -182,8 +190,9 @@ def unary_cases(draw, tier):
 def total_cases(draw, tier):
     s = draw(G.dfa_specs(max_states=4, max_sigma=2))
     keep = [t for t in s["d"] if draw(st.integers(0, 3)) > 0]
+    full = s
     s = dict(s, d=keep)
-    return {"dfa": s, "in_place": draw(st.booleans())}
+    return {"dfa": s, "in_place": draw(st.booleans()), "full": full if draw(st.booleans()) else None}
 
 
 @st.composite
